@@ -195,7 +195,7 @@ class Tensor:
         if req_grad and not self.is_floating_point:
             raise RuntimeError("Only floating point Tensors can require gradients")
         self._requires_grad = req_grad
-        self._retain_grad = False
+        self._retain_grad = retain_grads__ # results computed under retain_grads keep their gradient, wherever backward is called
         self._children = children
         self._operation = operation
         self._name = name
@@ -407,7 +407,7 @@ class Tensor:
             if node.grad_fn is not None:
                 #print(node.grad_fn)
                 node.grad_fn()
-            if node is not self and not node.is_leaf and not node._retain_grad and not retain_grads__:
+            if node is not self and not node.is_leaf and not node._retain_grad:
                 del node._grad
                 node._grad = None
         
